@@ -10,7 +10,9 @@ Definition EQ : N := 61.
 Record pair := mkPair { p_name : str; p_args : list str }.
 
 (* The regexp (?s)^(--?)([^=]+)(.*?)$ under leftmost-first semantics:
-   Some (two_dashes, group2, group3) *)
+   Some (long, group2, group3), where [long] tells that the token starts with two dashes
+   (isoption.go treats every such token as a long option, also "--=arg" for which the regexp
+   backtracks to a single dash with group 2 = "-"). *)
 Definition regex_match (s : str) : option (bool * str * str) :=
   match s with
   | d1 :: r1 =>
@@ -23,7 +25,7 @@ Definition regex_match (s : str) : option (bool * str * str) :=
               match g2 with
               | _ :: _ => Some (true, g2, g3)
               | [] => (* backtrack to a single dash: group 2 starts with the second dash *)
-                  let (g2', g3') := span_not EQ r1 in Some (false, g2', g3')
+                  let (g2', g3') := span_not EQ r1 in Some (true, g2', g3')
               end
             else
               let (g2, g3) := span_not EQ r1 in
